@@ -164,7 +164,7 @@ def _arr_chunk(items):
 
 def _grids():
     from microjs.values import UNDEFINED, NULL
-    recvs = [[], [1], [1, 2, 3], ["b", "a", "c"], [3, 1, 2, 1], [UNDEFINED, 1, NULL], [0.5, -0.0, float("nan"), "x"], [[1], [2, 3]], [1, "1", True, NULL, UNDEFINED, 2]]
+    recvs = [[], [1], [1, 2, 3], ["b", "a", "c"], [3, 1, 2, 1], [UNDEFINED, 1, NULL], [0.5, -0.0, float("nan"), "x"], [[1], [2, 3]], [1, "1", True, NULL, UNDEFINED, 2], ["z", UNDEFINED, "a", UNDEFINED, "v"], [UNDEFINED, UNDEFINED]]
     idx = [UNDEFINED, 0, 1, 2, -1, -2, 5, -9, 1.7, -1.5, float("nan"), float("inf"), float("-inf"), "1", NULL, True]
     vals = [1, "1", UNDEFINED, NULL, float("nan"), 2, "a", True, 0.5, -0.0, 0]
     items = []
@@ -299,5 +299,7 @@ def c17_callbacks_typed(tier="quick", seed=0):
     run("typed.ctor-negative-length", "var r; try { new Int8Array(-1) } catch(e) { r = e.name } r", "RangeError")
     run("typed.arraybuffer-negative", "var r; try { new ArrayBuffer(-1) } catch(e) { r = e.name } r", "RangeError")
     run("typed.set", "var t = new Uint8Array(4); t.set([1,2], 1); [t[0],t[1],t[2],t[3]]", [0, 1, 2, 0])
+    run("typed.set-from-view", "var b = new ArrayBuffer(4); var src = new Uint8Array(b); var other = new Uint8Array(b); src[0] = 1; other[1] = 7; other[0] = 9; var d = new Uint8Array(4); d.set(src); [d[0], d[1], src[0], src[1]]", [9, 7, 9, 7])
+    run("typed.set-typed-source", "var s16 = new Int16Array([300, -1]); var d8 = new Uint8Array(3); d8.set(s16, 1); [d8[0], d8[1], d8[2]]", [0, 44, 255])
     run("typed.buffer-identity", "var b = new ArrayBuffer(4); var t = new Uint8Array(b); t.buffer === b", True)
     return out
